@@ -321,7 +321,7 @@ def run(ctx):
 
 
 MANIFEST_ENTRY = {
-    "technique": "static analysis: abstract evaluation (rules/localemerge.py) of Locale::merge over default_to kind x suppress_key_warnings x five key-set shapes (which keys are reported missing / surplus, inserted, merged), of make_builder_keys and of the warning generator; MIR who-may-construct of the diagnostics and of the key set; syn decision-table extraction of ParsedValue::merge and of the accessor partition",
+    "technique": "static analysis: abstract evaluation (rules/absint.py) of Locale::merge (missing / surplus / present keys under each default_to), of check_locales_inner over every locale order, of make_builder_keys and of the warning generator; MIR who-may-emit / who-builds checks",
     "level_text": "Structural / finite case analysis: MissingKey exactly for absent keys under an implicit fallback, SurplusKey exactly for keys the default set lacks (whatever the sizes of the sets) unless suppressed, accessors exactly from the default locale's key set, one deprecated function per warning - decided by evaluating the source over the shapes it can distinguish, plus who-may-emit on MIR. Does not count warnings for a concrete project.",
     "level_note": "Trusted: BTreeMap semantics, rustc deprecation warnings. Not decided: exact warning multiset for a concrete project.",
 }
